@@ -1,6 +1,7 @@
 package rules
 
 import (
+	"path/filepath"
 	"fmt"
 	"go/token"
 	"go/types"
@@ -636,6 +637,81 @@ func runC16(c *Ctx) {
 	})
 	c.Check(okAttr, "O16.6", fk(dlb)+":attributes-evaluated-in-context", dlb.Pos(), "every locals attribute expression is evaluated with the accumulated context")
 	_ = token.NoPos
+	c16FunctionTable(c, dl)
+}
+
+// c16FunctionTable: O16.8.
+func c16FunctionTable(c *Ctx, dl *ssa.Function) {
+	c.Rule("O16.8", "the documented HCL functions are available in every description, with or without locals: every successful return of decodeLocals (nil diagnostics) hands out a context made by buildHclContext - never nil, never a context assembled elsewhere - and buildHclContext puts a Functions table into it that holds every function listed under 'HCL functions' in docs/eng/scenario/functions.md")
+	P := c.P
+	bctx := P.Func("components/providers/scenario/config", "", "buildHclContext")
+	if bctx == nil {
+		c.Anchor("O16.8", "config.buildHclContext")
+		return
+	}
+	nRet := 0
+	for _, r := range DelegatedReturns(dl) {
+		if len(r.Results) != 2 || !IsNilConst(r.Results[1]) {
+			continue
+		}
+		nRet++
+		okCtx := DerivesOnly(r.Results[0], false, func(v ssa.Value) bool {
+			cl, _ := CallOfValue(v)
+			return cl != nil && cl.Call.StaticCallee() == bctx
+		})
+		c.Check(okCtx, "O16.8", fk(dl)+":success-returns-a-built-context", r.Pos(), "a return with nil diagnostics must return what buildHclContext made (a nil or hand-made context has no function table: `merge(...)` then fails with 'Function calls not allowed' although the YAML twin loads)")
+	}
+	c.Floor("O16.8", "successful returns of decodeLocals", nRet, 1)
+	// the function table
+	keys := map[string]bool{}
+	var fnMap ssa.Value
+	EachInstr(bctx, func(in ssa.Instruction) {
+		if v, ok := StoreToField(in, "EvalContext", "Functions"); ok {
+			fnMap = v
+		}
+	})
+	if fnMap != nil {
+		EachInstr(bctx, func(in ssa.Instruction) {
+			if mu, ok := in.(*ssa.MapUpdate); ok && sameRoots(mu.Map, fnMap) {
+				if k, isS := ConstString(mu.Key); isS {
+					keys[k] = true
+				}
+			}
+		})
+	}
+	okRet := fnMap != nil
+	EachInstr(bctx, func(in ssa.Instruction) {
+		if r, ok := in.(*ssa.Return); ok && len(r.Results) == 1 && IsNilConst(r.Results[0]) {
+			okRet = false
+		}
+	})
+	c.Check(okRet, "O16.8", fk(bctx)+":context-carries-a-function-table", bctx.Pos(), fmt.Sprintf("buildHclContext stores a Functions map into the context it returns and never returns nil (%d functions)", len(keys)))
+	b, err := os.ReadFile(filepath.Join(P.Dir, "docs/eng/scenario/functions.md"))
+	if err != nil {
+		c.Anchor("O16.8", "docs/eng/scenario/functions.md")
+		return
+	}
+	in, nDoc := false, 0
+	for _, line := range strings.Split(string(b), "\n") {
+		t := strings.TrimSpace(line)
+		if strings.HasPrefix(t, "#") {
+			in = strings.Contains(strings.ToLower(t), "hcl functions")
+			continue
+		}
+		if t == "---" {
+			in = false // the navigation links below the list
+		}
+		if !in || !strings.HasPrefix(t, "- [") || !strings.Contains(t, "/functions/") {
+			continue
+		}
+		name := t[3:]
+		if i := strings.Index(name, "]"); i > 0 {
+			name = name[:i]
+			nDoc++
+			c.Check(keys[name], "O16.8", "docs/eng/scenario/functions.md:"+name, bctx.Pos(), "documented HCL function "+name+" is a key of the Functions table")
+		}
+	}
+	c.Floor("O16.8", "documented HCL functions", nDoc, 10)
 }
 
 // kindSubsumes: the config-side kind accepts every value of the HCL-side kind
